@@ -267,6 +267,23 @@ func (e *twinEnv) mixedOps() []mixedOp {
 		// denom d has no data, denom dx (setup) has: whatever a node decoded last must not leak into what it stores
 		one("TransferDenom(d,A->B)", s(e.A), pnfttypes.NewMsgTransferRequest("d", e.A.Bech, e.B.Bech)),
 		one("UpdateDenom(d,A)", s(e.A), pnfttypes.NewMsgUpdateDenomRequest("d", "", "renamed", "", "", "", "", e.A.Bech)),
+		// a rolled-back transaction (its second message fails) and a later create: what the failed transaction touched in
+		// memory must not survive - neither on a node that keeps running nor, differently, on one that restarts
+		{"Tx[CreateDID(d2,D5),CreateDID(d2,D5)]", func(w *world.World) world.TxSpec {
+			d2 := k.DIDs[1]
+			doc := k.doc("D5", d2)
+			m := &didtypes.MsgCreateDIDRequest{Did: d2, Document: doc, VerificationMethodId: k.vmID(d2, 1), Signature: k.sign(doc, 0, 1), FromAddress: e.B.Bech}
+			return world.TxSpec{Msgs: []sdk.Msg{m, m}, Signers: s(e.B), Fee: aolFee}
+		}},
+		{"CreateDID(d3,D1)", func(w *world.World) world.TxSpec {
+			d3 := didtypes.NewDID([]byte("twin-third-did"))
+			doc := k.doc("D1", d3)
+			return world.TxSpec{Msgs: []sdk.Msg{&didtypes.MsgCreateDIDRequest{Did: d3, Document: doc, VerificationMethodId: k.vmID(d3, 1), Signature: k.sign(doc, 0, 1), FromAddress: e.B.Bech}}, Signers: s(e.B), Fee: aolFee}
+		}},
+		{"Tx[AddRecord(A,a,by=W),AddRecord(nosuchtopic)]", func(w *world.World) world.TxSpec {
+			return world.TxSpec{Msgs: []sdk.Msg{aoltypes.NewMsgAddRecordRequest("a", []byte("kr"), []byte("vr"), e.W.Bech, e.A.Bech, ""),
+				aoltypes.NewMsgAddRecordRequest("nosuchtopic", []byte("k"), []byte("v"), e.W.Bech, e.A.Bech, "")}, Signers: s(e.W), Fee: aolFee}
+		}},
 		// a staking operation: fires the distribution / slashing hooks wired into the staking keeper
 		{"Delegate(B->validator,1000stake)", func(w *world.World) world.TxSpec {
 			val := w.App.StakingKeeper.GetAllValidators(w.Ctx())[0]
@@ -624,7 +641,7 @@ var _ = sort.Strings
 func upgradeCases(e *twinEnv, shard, n int) []*histCase {
 	name := app.Upgrades[len(app.Upgrades)-1].UpgradeName
 	var out []*histCase
-	for i, blocks := range [][][]int{{{0}, {2}, {5, 11}}, {{2}, {2}, {2}}, {{11}, {8}, {3}}, {{5}, {6, 7}, {1, 3}}, {{14}, {12}, {14, 13}}} {
+	for i, blocks := range [][][]int{{{0}, {2}, {5, 11}}, {{2}, {2}, {2}}, {{11}, {8}, {3}}, {{5}, {6, 7}, {1, 3}}, {{17}, {12}, {17, 13}}, {{14}, {16}, {15, 16}}} {
 		if i%n != shard {
 			continue
 		}
